@@ -390,6 +390,23 @@ func C20(rep *ev.Reporter, tier string) {
 		}
 		rec("", 0)
 	}
+	// an error early in a text, then MORE rules that exercise whatever the loader keeps between rules (salience
+	// clauses, descriptions, integer constants beyond 32 and near 64 bits, reals, strings): every single byte of two
+	// multi-rule documents deleted, and replaced by a blank
+	grl3 := "rule A \"a\" salience 3 { when F.I < 2 && F.S == \"x\" then F.I = F.I + 1; }\nrule B \"b\" salience 7 { when F.U > 4000000000 then F.I = 5000000000; Retract(\"B\"); }\nrule C salience -2 { when F.I == 9223372036854775807 || F.F < 1.5e300 then F.I = -3000000000; F.S = 'q'; }"
+	js3 := `[{"name":"A","desc":"a","salience":3,"when":"F.I < 2","then":["F.I = F.I + 1"]},{"name":"B","salience":7,"when":{"gt":["F.U",4000000000]},"then":["F.I = 5000000000",{"call":["Retract",{"const":"B"}]}]},{"name":"C","salience":-2,"when":{"eq":["F.I",9007199254740993]},"then":[{"set":["F.I",-3000000000]}]}]`
+	for _, d := range []struct {
+		l   int
+		txt string
+	}{{c20GRL, grl3}, {c20JSONRule, js3}} {
+		add(d.l, "error-then-rest", []byte(d.txt))
+		for o := 0; o < len(d.txt); o++ {
+			add(d.l, "error-then-rest", []byte(d.txt[:o]+d.txt[o+1:]))
+			if d.txt[o] != ' ' {
+				add(d.l, "error-then-rest", []byte(d.txt[:o]+" "+d.txt[o+1:]))
+			}
+		}
+	}
 	// boundary numbers and nesting
 	nums := []string{"2147483647", "2147483648", "-2147483649", "9223372036854775807", "9223372036854775808", "18446744073709551616", strings.Repeat("9", 400), "1e999", "-1e999", "0x" + strings.Repeat("f", 40), "0" + strings.Repeat("7", 40), "1." + strings.Repeat("0", 400) + "1", "1e-999"}
 	for _, n := range nums {
@@ -625,7 +642,7 @@ func C20(rep *ev.Reporter, tier string) {
 		rep.Exhaustive = false
 		rep.Coverage["caps_hit"] = fmt.Sprintf("time budget: %d of %d inputs run", ran, total)
 	}
-	rep.Coverage["rule"] = "four loaders (GRL text via the builder - into a fresh knowledge base and onto two knowledge bases that came out of the binary loader, one of them without any variable -, JSON rule via JSONResource+builder, JSON fact via DataContext.AddJSON, binary stream via LoadKnowledgeBaseFromReader), bounded-exhaustive input spaces, no sampling: every byte string of length <= 2 and every length-3 string over a 24-byte structural alphabet; for each valid seed every single-point mutation (every bit flip, every byte set to 00/7f/80/ff, truncation at every offset), every field start of a binary seed (boundaries from a tracing writer) overwritten with 13 boundary values, every node reference (AstID text) of a binary seed replaced by every other id of the stream (dangling, duplicated and cyclic references), splices of seed pairs, boundary numbers in every numeric position, nesting depth 10..2000 (brackets, negations, operator chains, statement lists, and every recursive atom production - selector, member, method call and their mixes - repeated on every kind of head: variable, call, string constant, bare name; nested selectors and call arguments - each shape at depths 12, 16, 22 with a growth oracle: allocation at depth 16 at most 4x that at depth 12); for the JSON loaders every string value of a seed extended at either end by each of 18 tails (CR, VT, FF, NBSP, line separator, repeated ';', comment openers, NUL, backslash) and every value of a seed (at every path) replaced by each of 11 alien values (null, true, numbers, empty and null-holding containers, 1e999) and every token string of length <= 4 over a 13-token JSON alphabet. Each input runs in a child process under RLIMIT_AS (ulimit -v 4 GiB): the worker must survive (no escaped panic, no runtime abort), return a value or an error, allocate at most 8 MiB + 2048 bytes per input byte (runtime.MemStats.TotalAlloc delta) and finish within the hang horizon. Every input is non-trivial (it exercises a loader end to end)."
+	rep.Coverage["rule"] = "four loaders (GRL text via the builder - into a fresh knowledge base and onto two knowledge bases that came out of the binary loader, one of them without any variable -, JSON rule via JSONResource+builder, JSON fact via DataContext.AddJSON, binary stream via LoadKnowledgeBaseFromReader), bounded-exhaustive input spaces, no sampling: every byte string of length <= 2 and every length-3 string over a 24-byte structural alphabet; for each valid seed every single-point mutation (every bit flip, every byte set to 00/7f/80/ff, truncation at every offset), every field start of a binary seed (boundaries from a tracing writer) overwritten with 13 boundary values, every node reference (AstID text) of a binary seed replaced by every other id of the stream (dangling, duplicated and cyclic references), splices of seed pairs, boundary numbers in every numeric position, every single byte of two multi-rule documents (saliences, descriptions, constants beyond 32 / near 64 bits after the damaged place) deleted or blanked, nesting depth 10..2000 (brackets, negations, operator chains, statement lists, and every recursive atom production - selector, member, method call and their mixes - repeated on every kind of head: variable, call, string constant, bare name; nested selectors and call arguments - each shape at depths 12, 16, 22 with a growth oracle: allocation at depth 16 at most 4x that at depth 12); for the JSON loaders every string value of a seed extended at either end by each of 18 tails (CR, VT, FF, NBSP, line separator, repeated ';', comment openers, NUL, backslash) and every value of a seed (at every path) replaced by each of 11 alien values (null, true, numbers, empty and null-holding containers, 1e999) and every token string of length <= 4 over a 13-token JSON alphabet. Each input runs in a child process under RLIMIT_AS (ulimit -v 4 GiB): the worker must survive (no escaped panic, no runtime abort), return a value or an error, allocate at most 8 MiB + 2048 bytes per input byte (runtime.MemStats.TotalAlloc delta) and finish within the hang horizon. Every input is non-trivial (it exercises a loader end to end)."
 	rep.Assumptions = append(rep.Assumptions, "uniformly random long inputs are sampling and outside this family; hang detection uses a wall clock (30 s for inputs that take microseconds, confirmed twice in isolation)")
 }
 
